@@ -301,41 +301,43 @@ Qed.
 Theorem gen_vm_init_eq : forall channels, gen_vm_init channels = gvm_init channels.
 Proof. reflexivity. Qed.
 
+(* LinSpaceVM.run (while current_command < len(commands): step(), with fuel) is the loop the round-3 refinement is stated for *)
+Theorem gen_run_eq : forall fuel g, gen_run fuel g = gen_run_n fuel g.
+Proof. induction fuel as [|f IH]; intros g; cbn [gen_run gen_run_n]; [reflexivity|]. unfold gvm_running. destruct (Nat.ltb _ _); [|reflexivity]. destruct (gen_step g); [apply IH|reflexivity]. Qed.
+
 (* ---------------------------------------------------------------------------------------------------------------- *)
 (* LinSpaceBuilder.hold_voltage: the loop over the open iterations that turns one SimpleExpression into (base, factors) *)
+
+(* the model's positional ranges (start, step) of the builder's named ranges *)
+Definition rs_of (nrs : list (nat * grange)) : list (Z * Z) := map (fun nr => (range_start (snd nr), range_step (snd nr))) nrs.
 
 (* the positional coefficients the model's `VAff base coefs` stands for, given the open iterations by NAME (outermost first) and
    the offsets of the SimpleExpression by name: a level whose name is bound again further in is shadowed (coefficient 0),
    a name without offset has coefficient 0 *)
-Fixpoint pos_coefs (rs : list (nat * (Z * Z))) (offsets : list (nat * Q)) : list Q :=
+Fixpoint pos_coefs (rs : list (nat * grange)) (offsets : list (nat * Q)) : list Q :=
   match rs with
   | [] => []
   | (name, _) :: rs' =>
-      (if existsb (fun nr : nat * (Z * Z) => Nat.eqb (fst nr) name) rs' then 0%Q
+      (if existsb (fun nr : nat * grange => Nat.eqb (fst nr) name) rs' then 0%Q
        else match alookup Nat.eqb name offsets with Some o => o | None => 0%Q end) :: pos_coefs rs' offsets
   end.
 
-Lemma not_shadowed_b : forall (l : list (nat * (Z * Z))) name,
+Lemma not_shadowed_b : forall (l : list (nat * grange)) name,
   forallb (fun '(inner_name, _) => negb (Nat.eqb inner_name name)) l = negb (existsb (fun nr => Nat.eqb (fst nr) name) l).
 Proof. induction l as [|[n r] l IH]; intros name; cbn; [reflexivity|]. rewrite IH. now rewrite negb_orb. Qed.
 
 Lemma nth_coef_middle : forall pre c post, nth_coef (pre ++ c :: post) (length pre) = c.
 Proof. intros. unfold nth_coef. now rewrite nth_middle. Qed.
 
-Lemma Forall2_Qeq_snoc : forall a b x y, Forall2 Qeq a b -> (x == y)%Q -> Forall2 Qeq (a ++ [x]) (b ++ [y]).
-Proof. intros. apply Forall2_app; auto. Qed.
-
-Lemma hold_voltage_loop_eq : forall offsets rs pre base base' incs acc,
-  (base == base')%Q -> Forall2 Qeq incs (rev acc) ->
-  (fst (gen_hold_voltage_loop2 rs offsets base incs) ==
-   fst (aff_walk (map snd rs) (pre ++ pos_coefs rs offsets) (length pre) base' acc))%Q /\
-  Forall2 Qeq (snd (gen_hold_voltage_loop2 rs offsets base incs))
-              (snd (aff_walk (map snd rs) (pre ++ pos_coefs rs offsets) (length pre) base' acc)).
+Lemma hold_voltage_loop_eq : forall offsets rs pre base incs acc,
+  incs = rev acc ->
+  gen_hold_voltage_loop2 rs offsets base incs = aff_walk (rs_of rs) (pre ++ pos_coefs rs offsets) (length pre) base acc.
 Proof.
-  intros offsets. induction rs as [|[name [start step]] rs IH]; intros pre base base' incs acc Hb Hi.
-  - cbn. split; assumption.
-  - cbn [gen_hold_voltage_loop2 map snd aff_walk pos_coefs fst]. rewrite nth_coef_middle. rewrite not_shadowed_b.
-    set (c0 := if existsb (fun nr : nat * (Z * Z) => Nat.eqb (fst nr) name) rs then 0%Q
+  intros offsets. induction rs as [|[name rng] rs IH]; intros pre base incs acc Hi.
+  - cbn. now subst.
+  - cbn [gen_hold_voltage_loop2 rs_of map snd aff_walk pos_coefs fst]. rewrite nth_coef_middle. rewrite not_shadowed_b.
+    fold (rs_of rs).
+    set (c0 := if existsb (fun nr : nat * grange => Nat.eqb (fst nr) name) rs then 0%Q
                else match alookup Nat.eqb name offsets with Some o => o | None => 0%Q end).
     assert (Hpre : forall X, pre ++ c0 :: X = (pre ++ [c0]) ++ X) by (intros; now rewrite <- app_assoc).
     assert (Hlen : S (length pre) = length (pre ++ [c0])) by (rewrite app_length; cbn; lia).
@@ -344,31 +346,187 @@ Proof.
     + destruct (Qeq_bool o 0) eqn:Ez; cbn [negb andb].
       * assert (Ec : Qeq_bool c0 0 = true).
         { unfold c0. destruct (existsb _ rs); [reflexivity|exact Ez]. }
-        rewrite Ec. apply IH; [rewrite Hb; reflexivity|cbn [rev]; apply Forall2_Qeq_snoc; [exact Hi|reflexivity]].
-      * destruct (existsb (fun nr : nat * (Z * Z) => Nat.eqb (fst nr) name) rs) eqn:Es; cbn [negb].
+        rewrite Ec. apply IH. cbn [rev]. now subst.
+      * destruct (existsb (fun nr : nat * grange => Nat.eqb (fst nr) name) rs) eqn:Es; cbn [negb].
         -- assert (Ec : Qeq_bool c0 0 = true) by (unfold c0; reflexivity).
-           rewrite Ec. apply IH; [rewrite Hb; reflexivity|cbn [rev]; apply Forall2_Qeq_snoc; [exact Hi|reflexivity]].
-        -- assert (Ec : c0 = o) by (unfold c0; reflexivity). rewrite Ec, Ez.
-           apply IH; [rewrite Hb; ring|cbn [rev]; apply Forall2_Qeq_snoc; [exact Hi|ring]].
+           rewrite Ec. apply IH. cbn [rev]. now subst.
+        -- assert (Ec : c0 = o) by (unfold c0; reflexivity). clearbody c0. subst c0. rewrite Ez. apply IH. cbn [rev]. now subst.
     + assert (Ec : Qeq_bool c0 0 = true) by (unfold c0; destruct (existsb _ rs); reflexivity).
-      rewrite Ec. apply IH; [rewrite Hb; reflexivity|cbn [rev]; apply Forall2_Qeq_snoc; [exact Hi|reflexivity]].
+      rewrite Ec. apply IH. cbn [rev]. now subst.
 Qed.
-
-Definition volt_res_eq (x y : Q * option (list Q)) : Prop :=
-  (fst x == fst y)%Q /\ match snd x, snd y with Some a, Some b => Forall2 Qeq a b | None, None => True | _, _ => False end.
 
 (* hold_voltage on a SimpleExpression = the model's build_volt on `VAff base (pos_coefs ..)`; on a plain number = VPlain *)
 Theorem gen_hold_voltage_expr_eq : forall rs offsets base,
-  match build_volt (map snd rs) (VAff base (pos_coefs rs offsets)) with
-  | Ok r => volt_res_eq (gen_hold_voltage_expr rs offsets base) r
-  | Err _ => False
-  end.
+  build_volt (rs_of rs) (VAff base (pos_coefs rs offsets)) = Ok (gen_hold_voltage_expr rs offsets base).
 Proof.
-  intros rs offsets base. unfold build_volt, gen_hold_voltage_expr.
-  pose proof (hold_voltage_loop_eq offsets rs [] base base [] [] (Qeq_refl _) (Forall2_nil _)) as H. cbn [app length] in H.
-  destruct (gen_hold_voltage_loop2 rs offsets base []) as [b1 i1]. destruct (aff_walk (map snd rs) (pos_coefs rs offsets) 0 base []) as [b2 i2].
-  cbn in *. exact H.
+  intros rs offsets base. unfold build_volt, gen_hold_voltage_expr. cbv zeta.
+  rewrite (hold_voltage_loop_eq offsets rs [] base [] [] eq_refl). cbn [app length].
+  destruct (aff_walk (rs_of rs) (pos_coefs rs offsets) 0 base []) as [b2 i2]. reflexivity.
 Qed.
 
 Theorem gen_hold_voltage_plain_eq : forall rs q, build_volt rs (VPlain q) = Ok (gen_hold_voltage_plain q).
 Proof. reflexivity. Qed.
+
+(* ---------------------------------------------------------------------------------------------------------------- *)
+(* LinSpaceBuilder as a state machine (translated: hold_voltage, with_repetition / with_iteration / with_sequence split at the
+   yield, to_program) driven the way the pulse templates drive it.  Sources with loop indices by NAME: *)
+
+Inductive nvolt :=
+| NVNum (q : Q)                                   (* a plain number *)
+| NVExpr (base : Q) (offsets : list (nat * Q)).   (* SimpleExpression(base, offsets by index name) *)
+
+Inductive nsrc :=
+| NSHold (dur : Q) (vs : list nvolt)              (* voltages in builder channel order *)
+| NSSeq (l : list nsrc)
+| NSRep (count : Z) (body : nsrc)
+| NSIter (name : nat) (start stop step : Z) (body : nsrc).
+
+Definition to_volt (nrs : list (nat * grange)) (v : nvolt) : volt :=
+  match v with NVNum q => VPlain q | NVExpr b offs => VAff b (pos_coefs nrs offs) end.
+
+(* the positional source (Model.src) a named source stands for, inside the open iterations nrs *)
+Fixpoint to_src (nrs : list (nat * grange)) (s : nsrc) : src :=
+  match s with
+  | NSHold d vs => SHold d (map (to_volt nrs) vs)
+  | NSSeq l => SSeq (map (to_src nrs) l)
+  | NSRep c b => SRep c (to_src nrs b)
+  | NSIter n a b c body => SIter a b c (to_src (nrs ++ [(n, (a, b, c))]) body)
+  end.
+
+Definition gval (v : nvolt) : gvalue := match v with NVNum q => GNum q | NVExpr b offs => GExpr b offs end.
+
+(* what the pulse templates do with a builder (hand-written; the python protocol `for b in builder.with_x(..): <body>` runs the
+   part before the yield, the body if the generator yielded, the part after the yield):
+   ConstantPT: hold_voltage unless the duration is not positive; SequencePT: with_sequence around the parts; RepetitionPT:
+   with_repetition only for a positive count; ForLoopPT: with_iteration with the range *)
+Fixpoint drive (s : nsrc) (b : gbuilder) {struct s} : res gbuilder :=
+  match s with
+  | NSHold dur vs => if Qpos_b dur then gen_hold_voltage b (GNum dur) (map gval vs) else Ok b
+  | NSSeq l =>
+      let? '(b1, _) := gen_with_sequence_enter b in
+      let? b2 := (fix go (l : list nsrc) (b : gbuilder) : res gbuilder :=
+                    match l with [] => Ok b | x :: l' => let? b' := drive x b in go l' b' end) l b1 in
+      gen_with_sequence_exit b2
+  | NSRep count body =>
+      if count <=? 0 then Ok b else
+      let? '(b1, entered) := gen_with_repetition_enter b count in
+      if entered then let? b2 := drive body b1 in gen_with_repetition_exit b2 count else Ok b1
+  | NSIter n a bb c body =>
+      let? '(b1, entered) := gen_with_iteration_enter b n (a, bb, c) in
+      if entered then let? b2 := drive body b1 in gen_with_iteration_exit b2 n (a, bb, c) else Ok b1
+  end.
+
+Section nsrc_ind2.
+  Variable P : nsrc -> Prop.
+  Hypothesis Hh : forall d vs, P (NSHold d vs).
+  Hypothesis Hs : forall l, Forall P l -> P (NSSeq l).
+  Hypothesis Hr : forall c b, P b -> P (NSRep c b).
+  Hypothesis Hi : forall n a b c body, P body -> P (NSIter n a b c body).
+  Fixpoint nsrc_ind2 (s : nsrc) : P s :=
+    match s with
+    | NSHold d vs => Hh d vs
+    | NSSeq l => Hs l ((fix go (l : list nsrc) : Forall P l :=
+                          match l with [] => Forall_nil P | x :: l' => Forall_cons x (nsrc_ind2 x) (go l') end) l)
+    | NSRep c b => Hr c b (nsrc_ind2 b)
+    | NSIter n a b c body => Hi n a b c body (nsrc_ind2 body)
+    end.
+End nsrc_ind2.
+
+Lemma pop_last_v_snoc {A} : forall (l : list A) x, pop_last_v (l ++ [x]) = Some (l, x).
+Proof.
+  induction l as [|a l IH]; intros x; [reflexivity|]. cbn [app pop_last_v]. rewrite IH.
+  destruct (l ++ [x]) eqn:E; [destruct l; discriminate|reflexivity].
+Qed.
+Lemma stack_top_append_snoc {A} : forall (frames : list (list A)) top x,
+  stack_top_append x (frames ++ [top]) = Some (frames ++ [top ++ [x]]).
+Proof.
+  induction frames as [|f frames IH]; intros top x; [reflexivity|]. cbn [app stack_top_append]. rewrite IH.
+  destruct (frames ++ [top]) eqn:E; [destruct frames; discriminate|reflexivity].
+Qed.
+
+Lemma hold_loop1_eq : forall nrs vs bases factors,
+  match build_volts (rs_of nrs) (map (to_volt nrs) vs) with
+  | Ok nvs => gen_hold_voltage_loop1 (map gval vs) nrs bases factors = (bases ++ map fst nvs, factors ++ map snd nvs)
+  | Err _ => False
+  end.
+Proof.
+  intros nrs. induction vs as [|v vs IH]; intros bases factors; cbn [map build_volts gen_hold_voltage_loop1].
+  - now rewrite !app_nil_r.
+  - destruct v as [q|base offs]; cbn [to_volt gval].
+    + cbn [build_volt bind]. specialize (IH (bases ++ [q]) (factors ++ [None])).
+      destruct (build_volts (rs_of nrs) (map (to_volt nrs) vs)) as [nvs|e]; [|exact IH]. cbn [bind map fst snd].
+      rewrite IH, <- !app_assoc. reflexivity.
+    + pose proof (gen_hold_voltage_expr_eq nrs offs base) as E. rewrite E. cbn [bind]. unfold gen_hold_voltage_expr in *. cbv zeta in *.
+      destruct (gen_hold_voltage_loop2 nrs offs base []) as [b incs].
+      specialize (IH (bases ++ [b]) (factors ++ [Some incs])).
+      destruct (build_volts (rs_of nrs) (map (to_volt nrs) vs)) as [nvs|e]; [|exact IH]. cbn [bind map fst snd].
+      rewrite IH, <- !app_assoc. reflexivity.
+Qed.
+
+Definition drive_stmt (s : nsrc) : Prop :=
+  forall frames top nrs fi,
+    match build (to_src nrs s) (rs_of nrs) with
+    | Ok nodes => drive s (mkGb (frames ++ [top]) nrs fi) = Ok (mkGb (frames ++ [top ++ map embed_node nodes]) nrs fi)
+    | Err _ => False
+    end.
+
+Lemma rs_of_snoc : forall nrs n a b c, rs_of (nrs ++ [(n, (a, b, c))]) = rs_of nrs ++ [(a, c)].
+Proof. intros. unfold rs_of. rewrite map_app. reflexivity. Qed.
+
+(* rewriting under `let?` up to conversion (grange vs Z * Z * Z in implicit arguments) *)
+Ltac rw_bind H := match type of H with _ = ?R => match goal with |- bind ?X ?K = _ => replace X with R by (symmetry; exact H) end end.
+
+Theorem drive_is_build : forall s, drive_stmt s.
+Proof.
+  induction s as [d vs|l IHl|c body IH|n a b c body IH] using nsrc_ind2; intros frames top nrs fi.
+  - (* hold *)
+    cbn [to_src build drive]. destruct (Qpos_b d).
+    + pose proof (hold_loop1_eq nrs vs [] []) as H.
+      destruct (build_volts (rs_of nrs) (map (to_volt nrs) vs)) as [nvs|e]; [|exact H]. cbn [bind].
+      unfold gen_hold_voltage. cbv zeta. cbn [gb_ranges gb_stack gb_frame_index]. rewrite H. cbn [app].
+      rewrite stack_top_append_snoc. reflexivity.
+    + cbn [map]. now rewrite app_nil_r.
+  - (* sequence *)
+    cbn [to_src build drive gen_with_sequence_enter gen_with_sequence_exit bind].
+    revert top. induction IHl as [|x l Hx Hl IH2]; intros top; cbn [map].
+    + cbn. now rewrite app_nil_r.
+    + specialize (Hx frames top nrs fi). destruct (build (to_src nrs x) (rs_of nrs)) as [n1|e]; [|exact Hx]. cbn [bind].
+      rewrite Hx. cbn [bind]. specialize (IH2 (top ++ map embed_node n1)).
+      match goal with |- match (let? b := ?X in _) with _ => _ end => destruct X as [n2|e] end; [|exact IH2]. cbn [bind].
+      match type of IH2 with (let? b2 := ?G in _) = _ => destruct G as [b2|e] eqn:EG end; cbn [bind] in IH2; [|discriminate].
+      cbn [bind]. unfold gen_with_sequence_exit in *. inversion IH2; subst. rewrite map_app, app_assoc. reflexivity.
+  - (* repetition *)
+    cbn [to_src build drive]. destruct (c <=? 0)%Z eqn:Ec; [cbn [map]; now rewrite app_nil_r|].
+    unfold gen_with_repetition_enter. assert (E0 : (c =? 0)%Z = false) by (apply Z.eqb_neq; apply Z.leb_gt in Ec; lia). rewrite E0.
+    cbn [gb_ranges gb_stack gb_frame_index bind].
+    specialize (IH (frames ++ [top]) [] nrs (fi ++ [None])).
+    destruct (build (to_src nrs body) (rs_of nrs)) as [blocks|e]; [|exact IH]. cbn [bind]. rewrite IH. cbn [bind app].
+    unfold gen_with_repetition_exit. cbn [gb_ranges gb_stack gb_frame_index]. rewrite !pop_last_v_snoc.
+    destruct blocks as [|x blocks]; cbn [map is_nil negb].
+    + now rewrite app_nil_r.
+    + rewrite stack_top_append_snoc. reflexivity.
+  - (* iteration *)
+    cbn [to_src build drive]. unfold gen_with_iteration_enter.
+    change (range_length (a, b, c)) with (range_len a b c).
+    destruct (range_len a b c =? 0)%Z; [cbn [bind map]; now rewrite app_nil_r|].
+    cbn [gb_ranges gb_stack gb_frame_index bind].
+    specialize (IH (frames ++ [top]) [] (nrs ++ [(n, (a, b, c))]) (fi ++ [Some n])). rewrite rs_of_snoc in IH.
+    destruct (build (to_src (nrs ++ [(n, (a, b, c))]) body) (rs_of nrs ++ [(a, c)])) as [cmds|e]; [|exact IH]. cbn [bind].
+    destruct cmds as [|x cmds]; cbv beta iota; rw_bind IH; cbn [bind app]; unfold gen_with_iteration_exit; cbn [gb_ranges gb_stack gb_frame_index];
+      rewrite !pop_last_v_snoc; change (range_length (a, b, c)) with (range_len a b c); cbn [map is_nil negb].
+    + now rewrite app_nil_r.
+    + rewrite stack_top_append_snoc. reflexivity.
+Qed.
+
+(* a whole program: LinSpaceBuilder(channels), the templates' calls, to_program() *)
+Theorem builder_program_eq : forall s,
+  match build_program (to_src [] s) with
+  | Ok nodes => exists b, drive s gen_builder_init = Ok b /\
+                          gen_to_program b = Ok (match nodes with [] => None | _ => Some (map embed_node nodes) end)
+  | Err _ => False
+  end.
+Proof.
+  intros s. pose proof (drive_is_build s [] [] [] [None]) as H. unfold build_program. cbn [rs_of map app] in H.
+  destruct (build (to_src [] s) []) as [nodes|e]; [|exact H].
+  eexists. split; [exact H|]. unfold gen_to_program. cbn. destruct nodes; reflexivity.
+Qed.
